@@ -207,6 +207,7 @@ func checkDamagedPath(c *harness.Ctx, w *World, call *Call, where string) bool {
 	if damaged == "" {
 		return false
 	}
+	c.Probe("negative-space-request-checked")
 	if methodClass(call, w) == "action" && call.Res.Kind == "collection" && (damaged == "damage-added-key" || damaged == "damage-dropped-key") {
 		// one defect, several faces (dispatched / filters ran / 500 instead of 400): one signature
 		if len(call.Inv) > 0 || len(call.Filt) > 0 || e.Status != call.wantStatus {
